@@ -171,7 +171,8 @@ harness evaluates a Go transcription of it beside the real round trip):
 is `readMoves` with `bufio.Scanner.Scan` inlined as the standard library writes it: a buffer that starts empty,
 becomes 4096 bytes and doubles up to `MaxScanTokenSize`; reads that deliver any number of bytes ≥ 1 that fit
 (`chunk`, arbitrary); the split function called on whatever is held, with `atEOF` only after a read has returned
-`io.EOF`; `ErrTooLong` when the buffer is full at its maximal size.  For every input and every sequence of read
+`io.EOF` (a reader that returns data and `io.EOF` in the same call is not modelled; `os.File`, `bytes.Reader`,
+`strings.Reader` never do); `ErrTooLong` when the buffer is full at its maximal size.  For every input and every sequence of read
 sizes it returns what the window model returns, so `ParsePTN` over it is `parsePTN` — every theorem of this
 section holds for it unchanged. -/
 theorem scanner_window_model (env : Env) (chunk : Nat → Nat) :
